@@ -126,12 +126,12 @@ func genericChecks(r *RunResult) []Violation {
 	}
 	for _, c := range r.W.Cmds {
 		if c.Panic != "" {
-			out = append(out, Violation{Prop: "C18", Clause: "panic-in-command", Msg: fmt.Sprintf("command %s(%s) by %s panicked: %s", c.Op.Kind, c.Op.Service, c.Actor, firstLine(c.Panic)), Sig: "panic:" + c.Op.Kind})
+			out = append(out, Violation{Prop: "C18", Clause: "panic-in-command", Msg: fmt.Sprintf("command %s(%s) by %s panicked: %s", c.Op.Kind, c.Op.Service, c.Actor, trunc(c.Panic, 400)), Sig: "panic:" + c.Op.Kind})
 		}
 	}
 	for _, q := range r.W.Responses {
 		if strings.HasPrefix(q.Err, "PANIC") {
-			out = append(out, Violation{Prop: "C18", Clause: "panic-in-request", Msg: fmt.Sprintf("request %s panicked: %s", q.ReqID, firstLine(q.Err)), Sig: "panic:request"})
+			out = append(out, Violation{Prop: "C18", Clause: "panic-in-request", Msg: fmt.Sprintf("request %s panicked: %s", q.ReqID, trunc(q.Err, 400)), Sig: "panic:request"})
 		}
 	}
 	return out
